@@ -26,9 +26,16 @@ def gen_cases(rng, tier):
         lo, hi = m["range"]
         sc = c["scalar"]
         ops = [["observe"], ["tables"], ["svd"]]
+        seen_a = []
         for _ in range(2):
             a = [hx(v, sc) for v in distinct_params(rng, m["P"], lo, hi)]
+            seen_a.append(a)
             ops += [["set", a], ["observe"], ["tables"], ["svd"]]
+        if i % 3 == 1:
+            # going back to the preceding parameters and applying them once more (a, b, a, a), then the other ones twice (b, b):
+            # whatever is remembered about earlier parameter vectors must not leak into the state of the current ones
+            a, b = seen_a
+            ops += [["set", a], ["set", a], ["observe"], ["tables"], ["svd"], ["set", b], ["set", b], ["observe"], ["tables"], ["svd"]]
         c["ops"] = ops
         cases.append(c)
     return cases
